@@ -43,6 +43,11 @@ def gen(ch):
     if kind == "both":   # coarse frequency AND a periodicity that is a multiple of it
         f = ch.pick("freq", GRID_OPTS[gname]["freq"])
         per = {"6h": "12h", "12h": "d", "d": "2d", "4h": "8h", "8h": "d"}.get(f)
+        eq = ch.pick("both.equal", [False, "equal", "equal_in_days"]) if GRID_OPTS[gname]["per"] else False
+        if eq:            # the period IS the coarse step: every coarse step repeats the one before (within each day)
+            per = f       # (not on the grid with days of unequal length, where EAO refuses periods)
+            if eq == "equal_in_days":
+                opt["periodicity_duration"] = "d"
         if per is None:
             return None
         opt["freq"] = f
@@ -160,7 +165,7 @@ def run_case(case):
     res["outcome"] = "%s/%s" % (run.status, rst)
     if run.status == "exception":
         res["counters"]["impl_error@%s" % run.site] = 1
-        if "periodicity cannot be imposed where disp factors are not identical" in str(run.error):
+        if "periodicity cannot be imposed where" in str(run.error):
             # explicit, documented refusal (coarse steps of unequal weight inside one period position): no claim
             res.update(status="skip", validated=False, outcome="documented_refusal")
             return res
